@@ -1,5 +1,6 @@
 import MageModel.Parse.Pkg
 import MageModel.Gen.Emit
+import MageModel.Gen.List
 /-!
 # C18 — the generated main program is a deterministic function of the magefiles
 Go randomises the iteration order of every `range` over a map.  The model has no such freedom left: wherever the
@@ -78,6 +79,87 @@ theorem emit_deterministic (nodes : List MageModel.Gen.Tpl.Node) (lits : List St
     MageModel.Gen.Emit.emit nodes lits bin info = MageModel.Gen.Emit.emit nodes lits bin info' := by
   unfold MageModel.Gen.Emit.emit MageModel.Gen.Emit.dataVal
   rw [hf, hi, hd, ha, hdesc]
+
+/-! ### what `-l` prints -/
+open MageModel.Gen in
+/-- **The target list does not depend on the order in which the targets were enumerated**: the generated `list` ranges
+over a Go map (random order) and sorts the keys; two enumerations of the same targets print the same text.  The keys
+are distinct for every package `checkDupes` accepts (hypothesis `hkeys`, in the weak form "equal keys, equal rows"). -/
+theorem listText_order_independent (info info' : PkgInfo)
+    (hd : info.defaultFunc = info'.defaultFunc) (hdesc : info.description = info'.description)
+    (hp : (allTargets info).Perm (allTargets info'))
+    (hkeys : ∀ f g, f ∈ allTargets info → g ∈ allTargets info → listKey info f = listKey info g → f.synopsis = g.synopsis) :
+    listText info = listText info' := by
+  have hk : listKey info = listKey info' := by funext f; unfold listKey; rw [hd]
+  have hrows : (listRows info).Perm (listRows info') := by
+    unfold listRows; rw [hk]; exact hp.map _
+  have hs : sortBy (·.1) (listRows info) = sortBy (·.1) (listRows info') := by
+    apply sortBy_perm_invariant (fun x : String × String => x.1) _ _
+    · intro x y z h1 h2; exact String.le_trans h1 h2
+    · intro x y; exact String.le_total _ _
+    · intro x y hx hy h1 h2
+      unfold listRows at hx hy
+      obtain ⟨f, hf, rfl⟩ := List.mem_map.mp hx
+      obtain ⟨g, hg, rfl⟩ := List.mem_map.mp hy
+      have hkey : listKey info f = listKey info g := String.le_antisymm h1 h2
+      have := hkeys f g hf hg hkey
+      simp [hkey, this]
+    · exact hrows
+  unfold listText
+  rw [hs, hd, hdesc]
+
+open MageModel.Gen in
+/-- the rows printed are the targets' rows, each exactly once (sorting permutes, nothing is dropped or invented) -/
+theorem listed_rows_exact (info : PkgInfo) :
+    (sortBy (·.1) (listRows info)).Perm ((allTargets info).map fun f => (listKey info f, f.synopsis)) := by
+  unfold sortBy listRows
+  exact List.mergeSort_perm _ _
+
+private theorem le_foldl_max (l : List Nat) (init x : Nat) (h : x ∈ l ∨ x ≤ init) : x ≤ l.foldl max init := by
+  induction l generalizing init with
+  | nil => rcases h with h | h; · cases h
+           · simpa using h
+  | cons a l ih =>
+    simp only [List.foldl_cons]
+    apply ih
+    rcases h with h | h
+    · rcases List.mem_cons.mp h with rfl | h
+      · right; exact Nat.le_max_right _ _
+      · left; exact h
+    · right; exact Nat.le_trans h (Nat.le_max_left _ _)
+
+open MageModel.Gen in
+/-- **The synopses are aligned**: in every line of the table the synopsis starts in the same column, four blanks after
+the widest name. -/
+theorem tabulate_aligned (rows : List (String × String)) (r : String × String) (h : r ∈ rows) :
+    (r.1.length + 2) + ((rows.map fun r => r.1.length + 2).foldl max 0 + 4 - (r.1.length + 2)) =
+      (rows.map fun r => r.1.length + 2).foldl max 0 + 4 := by
+  have : r.1.length + 2 ≤ (rows.map fun r => r.1.length + 2).foldl max 0 :=
+    le_foldl_max _ 0 _ (Or.inl (List.mem_map.mpr ⟨r, h, rfl⟩))
+  omega
+
+open MageModel.Gen in
+/-- `-h <word>` succeeds exactly for the words that name a target (ignoring case); aliases are not looked up -/
+theorem help_status (bin : String) (info : PkgInfo) (w : String) :
+    (help bin info [w]).2 = 0 ↔ ∃ f ∈ allTargets info, lower f.targetName = lower w := by
+  unfold help helpLookupFn
+  simp only []
+  split
+  · next f hfind =>
+    simp only [true_iff]
+    exact ⟨f, List.mem_of_find?_eq_some hfind, by simpa using List.find?_some hfind⟩
+  · next hfind =>
+    simp only [List.find?_eq_none] at hfind
+    constructor
+    · intro h; simp at h
+    · rintro ⟨f, hf, he⟩; have := hfind f hf; simp [he] at this
+
+-- a test (evaluated, not kernel-checked: `String.splitOn` does not reduce by `decide`)
+def listExample : PkgInfo :=
+  { funcs := [({ name := "Build", isError := false, isContext := false, args := [], synopsis := "builds it" } : Function),
+              ({ name := "Zap", isError := false, isContext := false, args := [] } : Function)],
+    defaultFunc := some ({ name := "Build", isError := false, isContext := false, args := [] } : Function) }
+#guard MageModel.Gen.listText listExample == "Targets:\n  build*    builds it\n  zap       \n\n* default target\n"
 
 /-! ### the pinned tree (D16): numbering in map order -/
 namespace Pinned
